@@ -169,8 +169,10 @@ Section Agree2Spec.
     match lookup f d with Some _ => false | None => true end.
 
   (** *** stats: the two callbacks of [run_stats] *)
-  Definition stats_log_cb (toks : list ltoken) (st : nat * time * time) (ev : event NM)
-    : (nat * time * time) * bool * option cerr :=
+  (** the state of the log walk: the number of headings, the first dated heading ([None]: no dated
+      heading yet), the time of the last heading *)
+  Definition stats_log_cb (toks : list ltoken) (st : nat * option time * time) (ev : event NM)
+    : (nat * option time * time) * bool * option cerr :=
     match ev with
     | EErr e => (st, true, Some (EParse (perr_message e)))
     | ENode n =>
@@ -178,7 +180,7 @@ Section Agree2Spec.
         match parse_date toks (header n) with
         | Some c =>
             let t := time_of_civil c in
-            ((S cnt, if is_zero_time first then t else first, t), false, None)
+            ((S cnt, match first with Some _ => first | None => Some t end, t), false, None)
         | None => ((S cnt, first, zero_time), false, None)
         end
     end.
@@ -204,14 +206,18 @@ Section Agree2Spec.
   Definition heading_dates (toks : list ltoken) (ns : list (pnode NM)) : list (option (Z * Z * Z)) :=
     map (fun n => parse_date toks (header n)) ns.
 
-  (** what [stats] shows as "first record": the first heading date that parses and is not the zero
-      time 0001-01-01 itself; the zero time when there is none *)
-  Fixpoint stats_first (ds : list (option (Z * Z * Z))) : time :=
+  (** the first dated heading: the date of the first heading that parses ([None] when no heading does) *)
+  Fixpoint stats_first_opt (ds : list (option (Z * Z * Z))) : option time :=
     match ds with
-    | [] => zero_time
-    | Some c :: r => if is_zero_time (time_of_civil c) then stats_first r else time_of_civil c
-    | None :: r => stats_first r
+    | [] => None
+    | Some c :: _ => Some (time_of_civil c)
+    | None :: r => stats_first_opt r
     end.
+
+  (** what [stats] shows as "first record": the first dated heading, whatever date it is (0001-01-01
+      included); the zero time when the log has no dated heading *)
+  Definition stats_first (ds : list (option (Z * Z * Z))) : time :=
+    match stats_first_opt ds with Some t => t | None => zero_time end.
 
   (** "last record": the date of the last heading, the zero time when that heading does not parse
       (or there is no heading) *)
